@@ -42,38 +42,40 @@ fn compute(pd: &PD, heavy: bool) -> Tables {
     }
 }
 
-/// Some((key suffix, message)) for the first inconsistency
-fn judge(t: &Tables) -> Option<(&'static str, String)> {
+/// (key suffix, message) for every inconsistency (all relations are judged, so that a listed known finding on
+/// one relation does not hide a different failure on the same link)
+fn judge(t: &Tables) -> Vec<(&'static str, String)> {
+    let mut out: Vec<(&'static str, String)> = vec![];
     if t.z_pieces != t.z_total {
         let diff: Vec<String> = t.z_pieces.keys().chain(t.z_total.keys()).collect::<std::collections::BTreeSet<_>>().into_iter()
             .filter(|k| t.z_pieces.get(k) != t.z_total.get(k)).map(|k| format!("{:?}: pieces {:?} / total {:?}", k, t.z_pieces.get(k), t.z_total.get(k))).collect();
-        return Some(("two-routes", format!("over Z the table from the total homology differs from the homology of the bigraded pieces at {}", diff.join("; "))))
+        out.push(("two-routes", format!("over Z the table from the total homology differs from the homology of the bigraded pieces at {}", diff.join("; "))))
     }
-    if let Some(x) = &t.z128 { if x != &t.z_pieces { return Some(("i128-vs-i64", "tables over i128 and i64 differ".into())) } }
-    if let Some(x) = &t.zbig { if x != &t.z_pieces { return Some(("bigint-vs-i64", "tables over BigInt and i64 differ".into())) } }
-    if t.q != t.q_total { return Some(("two-routes-q", "over Q the two routes differ".into())) }
-    if t.f2 != t.f2_total { return Some(("two-routes-f2", "over F2 the two routes differ".into())) }
-    if t.f3 != t.f3_total { return Some(("two-routes-f3", "over F3 the two routes differ".into())) }
-    if t.f2 != t.f2b { return Some(("ff2-vs-ff<2>", "FF2 and FF<2> give different tables".into())) }
-    if let (Some(a), Some(b)) = (&t.red_z_pieces, &t.red_z_total) { if a != b { return Some(("two-routes-reduced", "reduced theory over Z: the two routes differ".into())) } }
+    if let Some(x) = &t.z128 { if x != &t.z_pieces { out.push(("i128-vs-i64", "tables over i128 and i64 differ".into())) } }
+    if let Some(x) = &t.zbig { if x != &t.z_pieces { out.push(("bigint-vs-i64", "tables over BigInt and i64 differ".into())) } }
+    if t.q != t.q_total { out.push(("two-routes-q", "over Q the two routes differ".into())) }
+    if t.f2 != t.f2_total { out.push(("two-routes-f2", "over F2 the two routes differ".into())) }
+    if t.f3 != t.f3_total { out.push(("two-routes-f3", "over F3 the two routes differ".into())) }
+    if t.f2 != t.f2b { out.push(("ff2-vs-ff<2>", "FF2 and FF<2> give different tables".into())) }
+    if let (Some(a), Some(b)) = (&t.red_z_pieces, &t.red_z_total) { if a != b { out.push(("two-routes-reduced", "reduced theory over Z: the two routes differ".into())) } }
     let z = &t.z_pieces;
     if ranks_of(&t.q) != expected_over(RingKind::Q, z) || t.q.values().any(|v| !v.1.is_empty()) {
-        return Some(("q-vs-z", format!("ranks over Q {:?} differ from the free ranks over Z {:?}", ranks_of(&t.q), expected_over(RingKind::Q, z))))
+        out.push(("q-vs-z", format!("ranks over Q {:?} differ from the free ranks over Z {:?}", ranks_of(&t.q), expected_over(RingKind::Q, z))))
     }
     for (p, tab, key) in [(2i64, &t.f2, "f2-vs-z"), (3, &t.f3, "f3-vs-z")] {
         let exp = expected_over(RingKind::Fp(p), z);
         if ranks_of(tab) != exp {
             let diff: Vec<String> = exp.keys().chain(ranks_of(tab).keys()).collect::<std::collections::BTreeSet<_>>().into_iter()
                 .filter(|k| exp.get(k) != ranks_of(tab).get(k)).map(|k| format!("{:?}: F{p} {:?}, expected {:?}", k, ranks_of(tab).get(k), exp.get(k))).collect();
-            return Some((key, format!("dimensions over F{p} violate the universal coefficient relation at {}", diff.join("; "))))
+            out.push((key, format!("dimensions over F{p} violate the universal coefficient relation at {}", diff.join("; "))))
         }
     }
     if let Some(r) = &t.red_f2 {
         let mut exp: BTreeMap<(i64, i64), usize> = BTreeMap::new();
         for (&(i, j), (d, _)) in r { *exp.entry((i, j - 1)).or_insert(0) += d; *exp.entry((i, j + 1)).or_insert(0) += d; }
-        if ranks_of(&t.f2) != exp { return Some(("f2-reduced-tensor-unknot", "over F2 the unreduced table is not the reduced table tensored with the unknot's".into())) }
+        if ranks_of(&t.f2) != exp { out.push(("f2-reduced-tensor-unknot", "over F2 the unreduced table is not the reduced table tensored with the unknot's".into())) }
     }
-    None
+    out
 }
 
 fn run_link(ctx: &mut Ctx, pd: &PD, name: &str, heavy: bool, class: &str) {
@@ -88,9 +90,12 @@ fn run_link(ctx: &mut Ctx, pd: &PD, name: &str, heavy: bool, class: &str) {
             ctx.violation("C03/panic", &format!("panicked on {name}: {}", e.brief()), json!({"link": name, "pd": pd.x})); return
         }
     };
-    if let Some((k, msg)) = judge(&t) {
+    let bad = judge(&t);
+    if !bad.is_empty() {
         // the key names the relation and the link: a different link failing the same relation is a different finding
-        ctx.violation(&format!("C03/{k}/{name}"), &format!("{name}: {msg}"), json!({"link": name, "pd": pd.x, "switched": pd.neg, "z_pieces": tj(&t.z_pieces), "z_total": tj(&t.z_total)}));
+        for (k, msg) in bad {
+            ctx.violation(&format!("C03/{k}/{name}"), &format!("{name}: {msg}"), json!({"link": name, "pd": pd.x, "switched": pd.neg, "z_pieces": tj(&t.z_pieces), "z_total": tj(&t.z_total)}));
+        }
         return
     }
     let has_torsion = t.z_pieces.values().any(|v| !v.1.is_empty());
